@@ -102,6 +102,8 @@ package eth2wrap
 //@ ensures has(old(c.proposerDuties.duties), epoch) ==> forall(r, 0, len(dutiesForEpoch.requestedIdxs), slices.Contains(old(c.proposerDuties.requestedIdxs)[epoch], dutiesForEpoch.requestedIdxs[r]) || exists(a, 0, len(c.proposerDuties.requestedIdxs[epoch]), c.proposerDuties.requestedIdxs[epoch][a] == dutiesForEpoch.requestedIdxs[r]))
 //@ ensures has(old(c.proposerDuties.duties), epoch) ==> forall(r, 0, len(dutiesForEpoch.requestedIdxs), forall(j, 0, len(dutiesForEpoch.duties), !slices.Contains(old(c.proposerDuties.requestedIdxs)[epoch], dutiesForEpoch.requestedIdxs[r]) && dutiesForEpoch.duties[j].ValidatorIndex == dutiesForEpoch.requestedIdxs[r] ==> exists(i, 0, len(c.proposerDuties.duties[epoch]), c.proposerDuties.duties[epoch][i] == dutiesForEpoch.duties[j])))
 //@ ensures all(e2, eth2p0.Epoch, e2 != epoch ==> c.proposerDuties.duties[e2] == old(c.proposerDuties.duties)[e2] && c.proposerDuties.requestedIdxs[e2] == old(c.proposerDuties.requestedIdxs)[e2])
+//@ after append#2: len(c.proposerDuties.requestedIdxs[epoch]) == len(alreadyRequestedIdxs)+len(newlyFetchedIdxs) && forall(n, 0, len(newlyFetchedIdxs), c.proposerDuties.requestedIdxs[epoch][len(alreadyRequestedIdxs)+n] == newlyFetchedIdxs[n])
+//@ after append#4: len(c.proposerDuties.duties[epoch]) == len(alreadySavedDuties)+len(newlyFetchedDuties) && forall(n, 0, len(newlyFetchedDuties), c.proposerDuties.duties[epoch][len(alreadySavedDuties)+n] == newlyFetchedDuties[n])
 //@ loop 1 invariant forall(r, 0, $i, !slices.Contains(alreadyRequestedIdxs, dutiesForEpoch.requestedIdxs[r]) ==> exists(n, 0, len(newlyFetchedIdxs), newlyFetchedIdxs[n] == dutiesForEpoch.requestedIdxs[r]))
 //@ loop 2 invariant forall(n, 0, $i, forall(j, 0, len(dutiesForEpoch.duties), dutiesForEpoch.duties[j].ValidatorIndex == newlyFetchedIdxs[n] ==> exists(i, 0, len(newlyFetchedDuties), newlyFetchedDuties[i] == dutiesForEpoch.duties[j])))
 //@ loop 3 invariant forall(n, 0, $i2, forall(j, 0, len(dutiesForEpoch.duties), dutiesForEpoch.duties[j].ValidatorIndex == newlyFetchedIdxs[n] ==> exists(i, 0, len(newlyFetchedDuties), newlyFetchedDuties[i] == dutiesForEpoch.duties[j])))
@@ -153,6 +155,8 @@ package eth2wrap
 //@ ensures has(old(c.attesterDuties.duties), epoch) ==> forall(r, 0, len(dutiesForEpoch.requestedIdxs), slices.Contains(old(c.attesterDuties.requestedIdxs)[epoch], dutiesForEpoch.requestedIdxs[r]) || exists(a, 0, len(c.attesterDuties.requestedIdxs[epoch]), c.attesterDuties.requestedIdxs[epoch][a] == dutiesForEpoch.requestedIdxs[r]))
 //@ ensures has(old(c.attesterDuties.duties), epoch) ==> forall(r, 0, len(dutiesForEpoch.requestedIdxs), forall(j, 0, len(dutiesForEpoch.duties), !slices.Contains(old(c.attesterDuties.requestedIdxs)[epoch], dutiesForEpoch.requestedIdxs[r]) && dutiesForEpoch.duties[j].ValidatorIndex == dutiesForEpoch.requestedIdxs[r] ==> exists(i, 0, len(c.attesterDuties.duties[epoch]), c.attesterDuties.duties[epoch][i] == dutiesForEpoch.duties[j])))
 //@ ensures all(e2, eth2p0.Epoch, e2 != epoch ==> c.attesterDuties.duties[e2] == old(c.attesterDuties.duties)[e2] && c.attesterDuties.requestedIdxs[e2] == old(c.attesterDuties.requestedIdxs)[e2])
+//@ after append#2: len(c.attesterDuties.requestedIdxs[epoch]) == len(alreadyRequestedIdxs)+len(newlyFetchedIdxs) && forall(n, 0, len(newlyFetchedIdxs), c.attesterDuties.requestedIdxs[epoch][len(alreadyRequestedIdxs)+n] == newlyFetchedIdxs[n])
+//@ after append#4: len(c.attesterDuties.duties[epoch]) == len(alreadySavedDuties)+len(newlyFetchedDuties) && forall(n, 0, len(newlyFetchedDuties), c.attesterDuties.duties[epoch][len(alreadySavedDuties)+n] == newlyFetchedDuties[n])
 //@ loop 1 invariant forall(r, 0, $i, !slices.Contains(alreadyRequestedIdxs, dutiesForEpoch.requestedIdxs[r]) ==> exists(n, 0, len(newlyFetchedIdxs), newlyFetchedIdxs[n] == dutiesForEpoch.requestedIdxs[r]))
 //@ loop 2 invariant forall(n, 0, $i, forall(j, 0, len(dutiesForEpoch.duties), dutiesForEpoch.duties[j].ValidatorIndex == newlyFetchedIdxs[n] ==> exists(i, 0, len(newlyFetchedDuties), newlyFetchedDuties[i] == dutiesForEpoch.duties[j])))
 //@ loop 3 invariant forall(n, 0, $i2, forall(j, 0, len(dutiesForEpoch.duties), dutiesForEpoch.duties[j].ValidatorIndex == newlyFetchedIdxs[n] ==> exists(i, 0, len(newlyFetchedDuties), newlyFetchedDuties[i] == dutiesForEpoch.duties[j])))
@@ -204,6 +208,8 @@ package eth2wrap
 //@ ensures has(old(c.syncDuties.duties), epoch) ==> forall(r, 0, len(dutiesForEpoch.requestedIdxs), slices.Contains(old(c.syncDuties.requestedIdxs)[epoch], dutiesForEpoch.requestedIdxs[r]) || exists(a, 0, len(c.syncDuties.requestedIdxs[epoch]), c.syncDuties.requestedIdxs[epoch][a] == dutiesForEpoch.requestedIdxs[r]))
 //@ ensures has(old(c.syncDuties.duties), epoch) ==> forall(r, 0, len(dutiesForEpoch.requestedIdxs), forall(j, 0, len(dutiesForEpoch.duties), !slices.Contains(old(c.syncDuties.requestedIdxs)[epoch], dutiesForEpoch.requestedIdxs[r]) && dutiesForEpoch.duties[j].ValidatorIndex == dutiesForEpoch.requestedIdxs[r] ==> exists(i, 0, len(c.syncDuties.duties[epoch]), c.syncDuties.duties[epoch][i] == dutiesForEpoch.duties[j])))
 //@ ensures all(e2, eth2p0.Epoch, e2 != epoch ==> c.syncDuties.duties[e2] == old(c.syncDuties.duties)[e2] && c.syncDuties.requestedIdxs[e2] == old(c.syncDuties.requestedIdxs)[e2])
+//@ after append#2: len(c.syncDuties.requestedIdxs[epoch]) == len(alreadyRequestedIdxs)+len(newlyFetchedIdxs) && forall(n, 0, len(newlyFetchedIdxs), c.syncDuties.requestedIdxs[epoch][len(alreadyRequestedIdxs)+n] == newlyFetchedIdxs[n])
+//@ after append#4: len(c.syncDuties.duties[epoch]) == len(alreadySavedDuties)+len(newlyFetchedDuties) && forall(n, 0, len(newlyFetchedDuties), c.syncDuties.duties[epoch][len(alreadySavedDuties)+n] == newlyFetchedDuties[n])
 //@ loop 1 invariant forall(r, 0, $i, !slices.Contains(alreadyRequestedIdxs, dutiesForEpoch.requestedIdxs[r]) ==> exists(n, 0, len(newlyFetchedIdxs), newlyFetchedIdxs[n] == dutiesForEpoch.requestedIdxs[r]))
 //@ loop 2 invariant forall(n, 0, $i, forall(j, 0, len(dutiesForEpoch.duties), dutiesForEpoch.duties[j].ValidatorIndex == newlyFetchedIdxs[n] ==> exists(i, 0, len(newlyFetchedDuties), newlyFetchedDuties[i] == dutiesForEpoch.duties[j])))
 //@ loop 3 invariant forall(n, 0, $i2, forall(j, 0, len(dutiesForEpoch.duties), dutiesForEpoch.duties[j].ValidatorIndex == newlyFetchedIdxs[n] ==> exists(i, 0, len(newlyFetchedDuties), newlyFetchedDuties[i] == dutiesForEpoch.duties[j])))
